@@ -9,6 +9,7 @@ import (
 	"os"
 	"path/filepath"
 	"sort"
+	"strconv"
 	"strings"
 
 	"github.com/antlr/antlr4/runtime/Go/antlr"
@@ -388,7 +389,7 @@ func (p *Parser) collectSpecs(
 		for _, imp := range level {
 			filenameIndex := fileNameToIndex(imp.def.filename)
 			if fi, has := retrieved.l[filenameIndex]; has {
-				verifhook.Note("claimed", "seen "+imp.def.filename)
+				verifhook.Note("claimed", "seen "+strconv.Itoa(depth)+" "+imp.def.filename)
 				if err := p.checkSameImport(filenameIndex, fi.src.src, imp.def); err != nil {
 					return importedFrom(imp.importer, err)
 				}
@@ -398,7 +399,7 @@ func (p *Parser) collectSpecs(
 			fi.src.src = imp.def
 			retrieved.l[filenameIndex] = fi
 			fresh = append(fresh, fi)
-			verifhook.Note("claimed", "new "+imp.def.filename)
+			verifhook.Note("claimed", "new "+strconv.Itoa(depth)+" "+imp.def.filename)
 		}
 
 		g := new(errgroup.Group)
